@@ -325,3 +325,95 @@ func H_sync_cond_broadcast1() {
 	nd_assert(n == 1, "C11.sync.cond.broadcast1.all")
 	nd_reach("C11.sync.cond.broadcast1")
 }
+
+// TryLock never succeeds while the mutex is held and never blocks
+func H_sync_trylock() {
+	var mu sync.Mutex
+	inside, maxInside, got := 0, 0, 0
+	nd_go(func() {
+		mu.Lock()
+		inside++
+		if inside > maxInside {
+			maxInside = inside
+		}
+		inside--
+		mu.Unlock()
+	})
+	nd_go(func() {
+		if mu.TryLock() {
+			got++
+			inside++
+			if inside > maxInside {
+				maxInside = inside
+			}
+			inside--
+			mu.Unlock()
+		}
+	})
+	dl := nd_join()
+	nd_assert(!dl, "C11.sync.trylock.deadlock")
+	nd_assert(maxInside == 1, "C11.sync.trylock.mutex")
+	nd_assert(mu.TryLock(), "C11.sync.trylock.free")
+	nd_reach("C11.sync.trylock")
+}
+
+// RWMutex: TryRLock / TryLock against a writer
+func H_sync_rw_try() {
+	var rw sync.RWMutex
+	readers, writers, bad := 0, 0, false
+	nd_go(func() {
+		rw.Lock()
+		writers++
+		if readers != 0 {
+			bad = true
+		}
+		writers--
+		rw.Unlock()
+	})
+	nd_go(func() {
+		if rw.TryRLock() {
+			readers++
+			if writers != 0 {
+				bad = true
+			}
+			readers--
+			rw.RUnlock()
+		}
+		if rw.TryLock() {
+			writers++
+			if writers != 1 || readers != 0 {
+				bad = true
+			}
+			writers--
+			rw.Unlock()
+		}
+	})
+	dl := nd_join()
+	nd_assert(!dl, "C11.sync.rwtry.deadlock")
+	nd_assert(!bad, "C11.sync.rwtry.exclusion")
+	nd_reach("C11.sync.rwtry")
+}
+
+// WaitGroup used for two rounds: Wait of round one returns, then a second round
+func H_sync_waitgroup_reuse() {
+	var wg sync.WaitGroup
+	a, b, early := false, false, false
+	wg.Add(1)
+	nd_go(func() { a = true; wg.Done() })
+	nd_go(func() {
+		wg.Wait()
+		if !a {
+			early = true
+		}
+		wg.Add(1)
+		nd_go(func() { b = true; wg.Done() })
+		wg.Wait()
+		if !b {
+			early = true
+		}
+	})
+	dl := nd_join()
+	nd_assert(!dl, "C11.sync.wgreuse.deadlock")
+	nd_assert(!early && a && b, "C11.sync.wgreuse.afterzero")
+	nd_reach("C11.sync.wgreuse")
+}
